@@ -37,18 +37,18 @@ T = {
  "C08": ("Coq proof (score formula, normalisation and zero-frame guard, zero for the UBM, linearity, additivity, shape, and the derivative identity for any numbers of components/features/samples via Coquelicot) + correspondence over all input kinds + finite-difference oracle",
          "Theorems over R incl. is_derive (sum_i ll(shifted UBM) x_i) 0 (score). linear_scoring compared with the float model for machines/arrays, single/list statistics, scalar/(C,D)/(T,C,D) offsets, with/without normalisation, zero-frame statistics, MAP machine as UBM.",
          "Reals axioms (Coquelicot).", "DESIGN.md 4/C08"),
- "C10": ("Coq proof (projection solves the posterior-mean equation, which has a unique solution because the precision is I + PSD; zero statistics give 0; covariance floor; covariances untouched without updating) + project/fit correspondence + independent marginal-likelihood oracle",
+ "C10": ("Coq proof (projection solves the posterior-mean equation, which has a unique solution because the precision is I + PSD; zero statistics give 0; covariance floor; covariances untouched without updating; one training iteration never lowers the marginal likelihood, any subspace dimension, with and without covariance updating) + project/fit correspondence + independent marginal-likelihood oracle",
          "Theorems over R under the solver contract; IVectorMachine.project/fit compared with the float model (T0 replayed from the seeded global draw); the oracle computes the marginal likelihood with slogdet after every iteration.",
-         "EM monotonicity of the marginal likelihood is a theorem for a rank-1 subspace, with fixed covariances and with covariance updating while no floor is active (the code's e_step/m_step is the exact EM step on (T, sigma)); for rank > 1 it is validated numerically only (no determinant theory over R installed): partial.", "DESIGN.md 4/C10"),
+         "EM monotonicity of the marginal likelihood is a theorem for a subspace of ANY dimension, with fixed covariances and with covariance updating while no floor is active (the code's e_step/m_step never lowers the marginal as a function of (T, sigma)); ln det of the posterior precisions enters through a Cholesky factor supplied, like the inverse, by an oracle under a contract (Gaussian KL inequality proved without determinant theory). With an ACTIVE floor monotonicity is not claimed by the property and is checked numerically only.", "DESIGN.md 4/C10"),
  "C12": ("Coq proof (pairwise tree reduction = plain sum for every length; accumulators form a commutative monoid; per-partition E-steps add up to the E-step of the whole; one iteration independent of the partitioning; schedule independence; copy-back inclusion on generated lists) + bag exploration under the custom scheduler",
          "Theorems for every number and size of partitions; ISV/JFA/i-vector trained from dask bags with 1..n partitions, shuffled labels, shuffled task orders, shared and isolated, against the in-memory list fit.",
          "The ISV/JFA regrouping of bag partitions by running index is a theorem (Bag.v: regroup of any partitioning = grouping of the flat list); the running of the bag graph itself is covered by the exploration.", "DESIGN.md 4/C12"),
  "C14": ("Coq proof (whitened mean zero; L^T C L = I for M = C^-1 = L L^T with L lower triangular, positive diagonal; whitened covariance and WCCN within-class scatter/K are the identity; the WCCN projection depends only on the partition: class order, sample order and label values) under the contracts of inv and cholesky + correspondence + oracle",
          "Theorems over R for any dimension, class count and sample count; Whitening/WCCN.fit compared with the float model (Gauss-Jordan, Cholesky-Banachiewicz); oracle on negative / non-contiguous / unsorted labels and Dask input.",
          "inv/cholesky are oracles with explicit contracts (checked numerically by the oracle on every case).", "DESIGN.md 4/C14"),
- "C09": ("Coq proof (the D phase of JFA training is exact EM: one E/M iteration never lowers the phase marginal, any sizes; the V and U phases likewise for rank-1 subspaces: the code's iteration is the EM step and never lowers the phase marginal; scalar and rank-1 factor-analysis cores by the ELBO bound) + ISV/JFA fit correspondence + independent per-phase marginal oracle for V, U, D (slogdet)",
-         "Theorems over R for the diagonal (D) phase in full and for the V and U phases at rank 1 (any numbers of components, features, classes, sessions); the V and U phases at rank > 1 are validated numerically after every iteration of the public e_step_*/m_step_* functions because ln det A <= tr A - n is not available without determinant theory. JFAMachine.fit/ISVMachine.fit compared with the float model (U, V, D).",
-         "partial: V/U phase monotonicity for rank > 1 is numerical evidence only; shapes/finiteness by the oracle.", "DESIGN.md 4/C09"),
+ "C09": ("Coq proof (each of the three phases of JFA training is exact EM: one E/M iteration never lowers the phase marginal - the D phase and the V and U phases for subspaces of ANY rank, any numbers of components, features, classes, sessions; the ELBO argument with the Gaussian KL inequality proved through Cholesky factors, no determinant theory; closed-form rank-1 EM steps as special cases) + ISV/JFA fit correspondence + independent per-phase marginal oracle for V, U, D (slogdet)",
+         "Theorems over R for the D, V and U phases in full; ln det of the posterior precisions is 2*sum ln L_ii of a Cholesky factor supplied by an oracle under a contract, like np.linalg.inv. The phase marginals are also evaluated numerically (slogdet) after every iteration of the public e_step_*/m_step_* functions; JFAMachine.fit/ISVMachine.fit compared with the float model (U, V, D).",
+         "inverse and Cholesky factor are oracles with contracts; shapes/finiteness by the oracle; phase sequencing (finalize_v/finalize_u hand-over) by the correspondence and the list-vs-Dask-layout comparison.", "DESIGN.md 4/C09"),
  "C17": ("Coq proof (invariant over ALL histories of public operations: cached log-weights/normalisers are those of the visible parameters, variances are a fixed point of the clamp to the current floors; observations = those of the visible parameters; statistics likewise) + history correspondence (state compared after every operation) + fresh-machine oracle",
          "Theorems over R by induction over the operation list (setters with scalar/per-feature/matrix floors, EM steps with any switches, deepcopy, pickle, save/load); random histories (incl. loading another model into a used machine) run against the real object and the float model; augmented assignment through the properties and load-after-observe histories by the fresh-machine oracle.",
          "the object model is hand-written and tied by the history correspondence.", "DESIGN.md 4/C17"),
